@@ -1,6 +1,6 @@
 import python_minifier.ast_compat as ast
 
-from python_minifier.rename.util import arg_rename_in_place, insert
+from python_minifier.rename.util import arg_rename_in_place, insert, insertion_cost
 
 
 class Binding(object):
@@ -93,7 +93,7 @@ class Binding(object):
         How many additional bytes would be used, if this was renamed
         """
 
-        arg_rename = False
+        arg_rename = None
         additional_bytes = 0
 
         for node in self._references:
@@ -103,7 +103,7 @@ class Binding(object):
                 else:
                     # Python 2 Param context
                     if not arg_rename_in_place(node):
-                        arg_rename = True
+                        arg_rename = node.namespace
             elif isinstance(node, (ast.ClassDef, ast.FunctionDef, ast.AsyncFunctionDef)):
                 pass
             elif isinstance(node, ast.ExceptHandler):
@@ -120,7 +120,7 @@ class Binding(object):
                     pass
             elif isinstance(node, ast.arg):
                 if not arg_rename_in_place(node):
-                    arg_rename = True
+                    arg_rename = node.namespace
 
             elif isinstance(node, ast.MatchAs):
                 if node.name is None:
@@ -139,7 +139,11 @@ class Binding(object):
             else:
                 raise AssertionError('Unknown reference node')
 
-        return additional_bytes + (2 if arg_rename else 0)
+        if arg_rename is not None:
+            # The argument is bound to its new name by an assignment inserted into the function
+            additional_bytes += 1 + insertion_cost(arg_rename)
+
+        return additional_bytes
 
     def old_mention_count(self):
         """
